@@ -5,14 +5,15 @@ import asyncio
 import itertools
 import json
 
+import translate.attr_getter
 import translate.filter_mutators
 from harness import core
 from harness.core import Atom
-from harness.props import c22_frame
+from harness.props import c22_attr, c22_frame
 
 ID = "C22"
-LEAN_MODULES = ["JinjaV.Props.C22", "JinjaV.Props.C22Frame"]
-GEN = [translate.filter_mutators.gen]
+LEAN_MODULES = ["JinjaV.Props.C22", "JinjaV.Props.C22Frame", "JinjaV.Props.C22Attr"]
+GEN = [translate.filter_mutators.gen, translate.attr_getter.gen]
 LEVEL = "proof"
 TRUSTED = [
     "Model/FiltColl.lean is a hand transcription of do_slice, do_batch, do_unique, do_sort, do_groupby, do_min/max, "
@@ -25,6 +26,9 @@ TRUSTED = [
     "of every argument before = after; result is not the argument) in harness/props/c22_frame.py, and statically as "
     "Props/C22Frame.lean over Gen/FilterMutators.lean; the may-alias analysis of translate/filter_mutators.py (which builtins "
     "build a new container, which methods mutate) is trusted",
+    "attribute paths: Val / getitem of Model/FiltColl.lean model Environment.getitem on str-keyed dicts, plain objects, lists, "
+    "strings, ints and None for part names that are not methods of builtin types (hand transcription, tied by correspondence; "
+    "the statement skeleton of the getters is read and pinned: Gen/AttrGetter.lean)",
 ]
 ASSUMPTIONS = ["keys are comparable strings / ints (heterogeneous comparisons raise TypeError in Python)"]
 
@@ -145,9 +149,10 @@ def run(ctx, res):
                                 {"src": src, "request": core.sx(req), "env": envname, "form": form})
     direct = run_direct(ctx, res, jinja2, env, aenv)
     frame = c22_frame.run_frame(ctx, res, jinja2, env, aenv)
+    attr = c22_attr.run_attr(ctx, res, jinja2)
     res.coverage.update({
-        "evaluations": evaluations + direct["evaluations"] + frame["unit_calls"] + frame["template_renders"],
-        "distinct_nontrivial": len(distinct) + direct["distinct"] + frame["distinct"],
+        "evaluations": evaluations + direct["evaluations"] + frame["unit_calls"] + frame["template_renders"] + attr["evaluations"],
+        "distinct_nontrivial": len(distinct) + direct["distinct"] + frame["distinct"] + attr["distinct"],
         "rule": (f"slice/batch: every length 0-{maxlen} x sizes 1-8 x fill none/value (exhaustive); unique/sort/groupby/min/max: "
                  "every key list of length < 4/5 over 5 mixed-case keys plus random longer lists, case sensitive and not, "
                  "reverse; sum: random int lists; each rendered through the real filter in sync and async environments over "
@@ -160,11 +165,21 @@ def run(ctx, res):
                  "driven by asyncio.run) and compared after the result was consumed; new-object filters must not return the "
                  "argument and reversing/appending to the result must leave the snapshot unchanged; results equal across "
                  "variants; the same through templates that dump the variables after the filter (expr / for-loop / set+append "
-                 "shapes); non-trivial = at least 2 elements; plus auto_to_list on every form"),
+                 "shapes); non-trivial = at least 2 elements; plus auto_to_list on every form. ATTRIBUTE PATHS: random cases = a "
+                 "dotted path of 1-3 parts (names from a pool avoiding builtin method names, integer parts, attribute given as int) "
+                 "x 0-6 items built along the path from dicts, plain objects, dicts in objects, lists, indexed strings, with the "
+                 "first / a middle / the last part missing on some items (key absent, list too short, scalar or None instead of a "
+                 "container) x default absent / None / falsy / truthy / a container that has a part itself x Undefined / "
+                 "ChainableUndefined / StrictUndefined x case_sensitive / reverse / start / separator / second sort column; the Lean "
+                 "driver (attrget, mapAttr, groupbyAttr, ...) gives the expected outcome of make_attrgetter per item and of map, "
+                 "groupby, unique, sort, min, max, sum, join, selectattr, rejectattr (result, UndefinedError, or outside the model: "
+                 "counted, not compared), compared with the real functions directly, through call_filter in sync and async "
+                 "environments and through templates (map, groupby, sum, join on JSON-able items)"),
         "samples": [{"request": core.sx(reqs[5]), "src": jobs[5][0]}, {"request": core.sx(reqs[-1]), "src": jobs[-1][0]}],
         "filter_distribution": kinds,
         "direct": direct,
         "frame": frame,
+        "attribute_paths": attr,
     })
 
 
@@ -223,6 +238,8 @@ def run_direct(ctx, res, jinja2, env, aenv):
 
 def replay(ctx, case):
     c = case["case"]
+    if isinstance(c, dict) and c.get("mode") == "attr":
+        return {"case": c, "now": c22_attr.replay_attr(core.import_jinja(), c)}
     if isinstance(c, dict) and c.get("mode") in ("unit", "template", "auto_to_list"):
         return {"case": c, "now": c22_frame.replay_frame(core.import_jinja(), c)}
     return c
